@@ -108,6 +108,15 @@ func plan(tier string, seed int64) []driver.Case {
 		}
 	}
 	ch := catalog.Chainable()
+	// every operator downstream of a context-aware one: cancelling the subscription context makes
+	// ThrowOnContextCancel fail, the error travels through the operator, everything is released and the
+	// Subscribe call returns
+	for _, e := range ch {
+		if e.Family == "ThrowOnContextCancel" {
+			continue
+		}
+		cases = append(cases, driver.Case{ID: fmt.Sprintf("below-ctx-aware/%s/ctx", e.Name), P: map[string]string{"kind": "op", "chain": "ThrowOnContextCancel>" + e.Name, "cut": "ctx"}})
+	}
 	for i := 0; i < nChains; i++ {
 		n := 2 + rng.Intn(2)
 		names := make([]string, n)
@@ -571,6 +580,11 @@ func runOp(c driver.Case) driver.Result {
 			cleanup(sub, srcs)
 			return res
 		}
+		terminated = true
+	}
+	if cut == "takeuntil" {
+		// the notifier's value was delivered (its emission returned): TakeUntil ends the stream by itself,
+		// whatever the operator upstream of it lets through
 		terminated = true
 	}
 	_ = needed
